@@ -24,6 +24,13 @@ Fixpoint in_range (exts idx : list Z) : Prop :=
   | _, _ => False
   end.
 
+(* lexicographic order on index tuples: the first differing index decides *)
+Fixpoint lex_lt (i1 i2 : list Z) : Prop :=
+  match i1, i2 with
+  | a :: r1, b :: r2 => a < b \/ (a = b /\ lex_lt r1 r2)
+  | _, _ => False
+  end.
+
 (* extents as the VM can create them: MK_ARRAY takes `int e > 0`, literals have >= 1 element *)
 Definition ext_ok (n : Z) : Prop := 0 < n < two31.
 
